@@ -113,7 +113,7 @@ class SendDriver:
             sig, body = 'a{sh}s', [dict(('k%d' % j, fd) for j, fd in enumerate(fds)), 't%d' % i]
         if i % 2:
             self.conn.callRemote('/p%d' % i, 'M%d' % i, interface='org.ex.I', destination='org.ex.D',
-                                 signature=sig, body=body)
+                                 signature=sig, body=body, expectReply=(i % 3 != 0))
         else:
             m = message.MethodCallMessage('/p%d' % i, 'M%d' % i, interface='org.ex.I', signature=sig,
                                           body=body, oobFDs=[])
